@@ -36,6 +36,21 @@ def sub_pattern(rng, entry):
     return entry
 
 
+def invert_somewhere(rng, pat):
+    """$invert at the root of the pattern or nested under one of its keys (possibly a key the entries lack)"""
+    pat = dict(pat)
+    k = rng.below(4)
+    if k < 2:
+        pat["$invert"] = True
+    elif k == 2 and pat:
+        key = rng.pick(sorted(pat))
+        sub = pat[key] if isinstance(pat[key], dict) else {"x": 1}
+        pat[key] = dict(sub, **{"$invert": True})
+    else:
+        pat[rng.pick(["missing", "v", "id"])] = {"q": 1, "$invert": True}
+    return pat
+
+
 def list_patch(rng, cur):
     """a child list for parent list `cur`"""
     out = []
@@ -48,6 +63,8 @@ def list_patch(rng, cur):
         pat = sub_pattern(rng, e)
         if rng.chance(1, 6):
             pat = {"nope": 1}
+        if rng.chance(1, 4):
+            pat = invert_somewhere(rng, pat if isinstance(pat, dict) else {"id": 1})
         out = [{"$delete": pat}]
         if rng.chance(1, 8):
             out[0]["extra"] = 1
@@ -56,9 +73,8 @@ def list_patch(rng, cur):
         pat = sub_pattern(rng, e)
         if rng.chance(1, 6):
             pat = {"nope": 1}
-        if rng.chance(1, 6) and isinstance(pat, dict):
-            pat = dict(pat)
-            pat["$invert"] = True
+        if rng.chance(1, 4) and isinstance(pat, dict):
+            pat = invert_somewhere(rng, pat)
         ent = {"$match": pat}
         if rng.chance(1, 3):
             ent["$value"] = gen.tree(rng, 1, PROF)
@@ -147,7 +163,10 @@ def base_tree(rng, depth=3):
         t[rng.pick(gen.KEYS)] = gen.tree(rng, depth - 1, PROF)
     # make sure lists of maps exist often (for $match / $delete)
     if rng.chance(1, 2):
-        t[rng.pick(["l", "items"])] = [{"id": i, "v": rng.pick([1, "s", [1, 2], {"q": 1}])} for i in range(1 + rng.below(3))]
+        items = [{"id": i, "v": rng.pick([1, "s", [1, 2], {"q": 1}])} for i in range(1 + rng.below(3))]
+        if rng.chance(1, 3):     # mixed lists: maps next to scalars and lists
+            items.insert(rng.below(len(items) + 1), rng.pick([1, "foo", [1], None]))
+        t[rng.pick(["l", "items"])] = items
     return t
 
 
